@@ -404,7 +404,7 @@ func modeC03() {
 	for _, tree := range treesByChunks(3, 3, chunk) {
 		for _, s := range streams {
 			for _, cn := range conns {
-				for _, pre := range []string{"off", "", "partial", "complete", "firstchunk", "holes", "partial@8", "partial@2", "complete@8", "holes@2", "complete@3"} {
+				for _, pre := range []string{"off", "", "partial", "complete", "firstchunk", "holes", "partial@8", "partial@2", "complete@8", "holes@2", "complete@3", "holes@3", "holes@5"} {
 					c := Case{Tree: tree, Chunk: chunk, Streams: s, Conns: cn, Resume: pre != "off", NoRootDir: true}
 					if pre != "off" {
 						c.Pre = pre
@@ -605,7 +605,7 @@ func modeC01() {
 		for _, tree := range trees {
 			for _, s := range []int{1, 2, 4} {
 				for _, cn := range []int{1, 2} {
-					for _, pre := range []string{"off", "", "partial", "complete", "holes", "firstchunk", "stale-longer", "stale-shorter", "partial@8", "partial@2", "complete@8", "holes@2", "complete@3"} {
+					for _, pre := range []string{"off", "", "partial", "complete", "holes", "firstchunk", "stale-longer", "stale-shorter", "partial@8", "partial@2", "complete@8", "holes@2", "complete@3", "holes@3", "holes@5"} {
 						if pre != "off" && pre != "" && (len(tree) == 0 || tree[0].Size <= 0) {
 							continue
 						}
